@@ -972,18 +972,30 @@ fn e7(out: &mut Out, os: &[u32], n: usize, rng: &mut Rng) {
 /// escape, raw character}, as a value and as a key (C12's own family).
 fn surrogate_sequences(out: &mut Out, os: &[u32]) {
     let elems = ["\\ud83d", "\\ude00", "\\n", "x", "\\u0041", "\\udbff", "\\udc00", "\u{e9}", "\u{1f600}"];
-    for n in 0..=4usize {
-        let total = elems.len().pow(n as u32);
-        for code in 0..total {
-            let mut c = code;
-            let mut body = String::new();
-            for _ in 0..n {
-                body.push_str(elems[c % elems.len()]);
-                c /= elems.len();
-            }
-            for &o in os {
-                out.case(|| text_case(o, &format!("\"{body}\"")));
-                out.case(|| text_case(o, &format!("{{\"{body}\":0}}")));
+    // sequences of up to three elements over a larger alphabet: every two-character escape (a pending
+    // high surrogate must be settled before any of them), a second pair with other halves
+    let more = [
+        "\\ud83d", "\\ude00", "\\n", "x", "\\u0041", "\\udbff", "\\udc00", "\u{e9}", "\u{1f600}", "\\/", "\\\"", "\\\\", "\\b", "\\f", "\\r", "\\t", "\\ud83e", "\\udd14",
+    ];
+    for (alpha, max) in [(&elems[..], 4usize), (&more[..], 3)] {
+        for n in 0..=max {
+            let total = alpha.len().pow(n as u32);
+            for code in 0..total {
+                let mut c = code;
+                let mut body = String::new();
+                let mut only_old = true;
+                for _ in 0..n {
+                    only_old &= c % alpha.len() < elems.len();
+                    body.push_str(alpha[c % alpha.len()]);
+                    c /= alpha.len();
+                }
+                if alpha.len() > elems.len() && only_old {
+                    continue;
+                }
+                for &o in os {
+                    out.case(|| text_case(o, &format!("\"{body}\"")));
+                    out.case(|| text_case(o, &format!("{{\"{body}\":0}}")));
+                }
             }
         }
     }
@@ -1207,11 +1219,28 @@ pub fn suite(args: &Args, out: &mut Out, os: &[u32], weight: usize) {
 pub fn generate_c01(args: &Args, out: &mut Out) {
     suite(args, out, &[0], 2);
 }
+/// Documents that only a lenient option record accepts (and strict documents under it): what the value
+/// and the code map are does not depend on the property under which the options are described.
+fn lenient_extra(args: &Args, out: &mut Out) {
+    let mut rng = Rng::new(args.seed ^ 0x1e71e7);
+    surrogate_sequences(out, &[1, 2, 3]);
+    e7(out, &[1, 2, 3], if args.thorough() { 20000 } else { 1500 }, &mut rng);
+    for k in (0..=66usize).step_by(3) {
+        let run: String = (0..k).map(|i| (b'a' + (i % 26) as u8) as char).collect();
+        for c in ["\\ud83d", "\\ude00", "\\ud83d\\ud83d\\ude00", "\\ude00\\ud83d"] {
+            for o in [1u32, 2, 3] {
+                out.case(|| text_case(o, &format!("[\"{run}{c}\", \"{c}{run}\"]")));
+            }
+        }
+    }
+}
 pub fn generate_c02(args: &Args, out: &mut Out) {
     suite(args, out, &[0], 2);
+    lenient_extra(args, out);
 }
 pub fn generate_c05(args: &Args, out: &mut Out) {
     suite(args, out, &[0], 1);
+    lenient_extra(args, out);
 }
 pub fn generate_c07(args: &Args, out: &mut Out) {
     suite(args, out, &[0], 1);
